@@ -328,7 +328,13 @@ def check_property(prop, tier="quick", tree="/repo", record=False, jobs=None, le
     resB = run_tasks(_run_task, jobsB, njobs, hard)
     refuted_names = frozenset(o["name"] for r in resB for o in r["results"] if o["status"] == "refuted")
     # phase 2: unbounded proofs; obligations already refuted in phase 1 are not attempted again
-    jobsA = [(q, v, None, timeout_ms, tree, True, refuted_names) for (q, v) in tasks if unb(q)]
+    # unbounded tasks: a contract may name its own variants for the symbolic mode (bounded shape variants make no sense there)
+    tasksA = []
+    for q in dict.fromkeys(q for (q, _v) in tasks):
+        c_ = REG.contracts[q]
+        vs = c_.unbounded_variants() if hasattr(c_, "unbounded_variants") else [v for (q2, v) in tasks if q2 == q]
+        tasksA += [(q, v) for v in vs]
+    jobsA = [(q, v, None, timeout_ms, tree, True, refuted_names) for (q, v) in tasksA if unb(q)]
     resA = run_tasks(_run_task, jobsA, njobs, hard)
     # a task killed at the hard limit is out of reach (path explosion on this tree), not a checker crash: the run-time
     # fallback stands in where one exists, otherwise the function is reported undecided
